@@ -682,6 +682,15 @@ func main() {
 			if r.Chance(2, 3) {
 				o.size, o.bbox = false, false
 			}
+			// one-byte IDs (|id| < 64): with the default IDs (two to ten bytes each) the ID list
+			// itself pads the input and a too strict guard on the ID count (parseIDList) never
+			// bites
+			if len(o.ids) > 0 && r.Chance(3, 4) {
+				for j := range o.ids {
+					o.ids[j] = int64(r.Range(-63, 63))
+				}
+				stats["minsize_small_ids"]++
+			}
 		}
 		precHist[o.pxy]++
 		if o.size {
